@@ -1,0 +1,15 @@
+//go:build verif
+
+// Contracts for package sunlight, checked by /verif's govc (comment-only file: no declarations).
+package sunlight
+
+//@ pure func be40(s bytes) int = s[0]*4294967296 + s[1]*16777216 + s[2]*65536 + s[3]*256 + s[4]
+
+//@ func sunlight.readUint40 nopanic props C10
+//@   ensures [C10] ok: ret <==> len(old(*s)) >= 5
+//@   ensures [C10] value: ret ==> *out == be40(old(*s)) && *s == old(*s)[5:]
+//@   ensures [C10] range: ret ==> 0 <= *out && *out < 1099511627776
+//@   ensures [C10] fail: !ret ==> *out == old(*out) && *s == old(*s)
+
+//@ func sunlight.NewRFC6962Verifier props C11
+//@   defines ret1 == nil ==> ret0 != nil && isRFCVerifier(ret0, name, key)
